@@ -48,6 +48,7 @@ pub enum Event {
         pid: String,
         tid: String,
         phase: &'static str,
+        thread: u64,
     },
     /// a client message / process event is generated (before its dispatch is spawned)
     Emit {
@@ -162,6 +163,14 @@ pub fn pause(_w: &'static str) {
     }
 }
 
+/// a number identifying the calling OS thread
+pub fn thread_tag() -> u64 {
+    use std::hash::{Hash, Hasher};
+    let mut h = std::collections::hash_map::DefaultHasher::new();
+    std::thread::current().id().hash(&mut h);
+    h.finish() % 1_000_000
+}
+
 /// records the begin of a task execution now and its end when dropped
 pub struct ExecSpan {
     pid: String,
@@ -174,6 +183,7 @@ pub fn exec_span(pid: &str, tid: &str) -> ExecSpan {
         pid: pid.to_string(),
         tid: tid.to_string(),
         phase: "begin",
+        thread: thread_tag(),
     });
     ExecSpan {
         pid: pid.to_string(),
@@ -188,6 +198,7 @@ impl Drop for ExecSpan {
             pid: self.pid.clone(),
             tid: self.tid.clone(),
             phase: "end",
+            thread: thread_tag(),
         });
     }
 }
